@@ -172,12 +172,15 @@ def script_text(sid, ops):
     return "begin %s\n%s\n" % (sid, "\n".join(ops))
 
 
-def run_impl(exe, scripts):
+def run_impl(exe, scripts, symbolize=False):
     """scripts: list of (id, [op lines]).  Returns {id: ([Block], crash|None)}; a crash (sanitizer report,
     signal) ends one script, the others are still run."""
     out = {}
     todo = list(scripts)
     env = vlib.san_env()
+    if not symbolize:
+        env["ASAN_OPTIONS"] += ":symbolize=0"
+        env["UBSAN_OPTIONS"] += ":symbolize=0"
     while todo:
         text = "".join(script_text(s, ops) for s, ops in todo)
         rc, so, se = _run([exe], text, env=env)
@@ -254,7 +257,9 @@ def spec_check(ops, blocks, crash):
         w = op.split()
         if w[0] in ("mute", "unmute"):
             continue
-        if i >= len(blocks):
+        died_here = crash is not None and (i >= len(blocks) or
+                                           (i == len(blocks) - 1 and not any(l.startswith("cfg ") for l in blocks[i].lines)))
+        if died_here or i >= len(blocks):
             if crash:
                 expect_reject = False
                 if w[0] == "init":
@@ -407,11 +412,15 @@ def fixed_families():
     out = []
     # initialisation: every list of up to 3 groups over preferences {1,2,3} and 0..2 sockets, in every order
     specs = [(p, n) for p in (1, 2, 3) for n in (0, 1, 2)]
-    for ng in (0, 1, 2, 3):
+    for ng in (0, 1, 2):
         for combo in itertools.product(specs, repeat=ng):
-            if ng == 3 and len(set(combo)) == 1:
-                pass
             out.append(("init", ["init " + " ".join("%d:%d" % s for s in combo)] + (["start"] if ng else [])))
+    for perm in itertools.permutations((1, 2, 3)):
+        for counts in ((1, 1, 1), (2, 1, 2), (1, 2, 2)):
+            out.append(("init", ["init " + " ".join("%d:%d" % (p, n) for p, n in zip(perm, counts)), "start"]))
+    for combo in (((1, 1), (2, 1), (1, 1)), ((3, 2), (3, 1), (3, 2)), ((1, 1), (2, 0), (3, 1)), ((2, 1), (1, 1), (2, 2)),
+                  ((1, 0), (1, 0), (1, 0)), ((1, 1), (2, 1), (3, 0))):
+        out.append(("init", ["init " + " ".join("%d:%d" % s for s in combo), "start"]))
     out.append(("init", ["init 255:1 0:2 7:1", "start", "remove 0", "add 255 1", "add 254 2"]))
     # add / remove sequences
     for seq in itertools.product(["add 0 1", "add 2 2", "add 4 1", "add 3 1", "remove 0", "remove 1", "remove 2", "remove 3",
@@ -481,7 +490,10 @@ def random_script(rnd):
 
 def malformed_script(rnd):
     """Ops outside the domain: unknown groups/sockets, events on stopped sockets, SHUTDOWN/CLOSED as events."""
-    ops = ["init " + " ".join("%d:%d" % (p, rnd.randint(0, 2)) for p in [rnd.randint(0, 3) for _ in range(rnd.randint(0, 4))])]
+    if rnd.random() < 0.15:
+        ops = ["init " + " ".join("%d:%d" % (p, rnd.randint(0, 2)) for p in [rnd.randint(0, 3) for _ in range(rnd.randint(0, 4))])]
+    else:
+        ops = ["init " + " ".join("%d:%d" % (p, rnd.randint(1, 2)) for p in rnd.sample(range(0, 5), rnd.randint(1, 3)))]
     for _ in range(rnd.randint(1, 10)):
         r = rnd.random()
         if r < 0.5:
@@ -511,7 +523,7 @@ class Runner:
         self.stats = {"scripts": 0, "ops": 0, "pairs": set(), "by_family": {}, "op_kinds": {}, "events": {},
                       "crashes": 0, "hits": {}}
 
-    def evaluate(self, scripts, variant, last_only=False):
+    def evaluate(self, scripts, variant, last_only=False, finals=None):
         """scripts: [(id, family, ops)].  Returns (spec violations, tie differences): lists of
         (id, ops, detail).  Coverage statistics are accumulated."""
         pairs = [(sid, ops) for sid, fam, ops in scripts]
@@ -562,6 +574,8 @@ class Runner:
                             st["events"]["ignored"] = st["events"].get("ignored", 0) + 1
                 if cfgl:
                     prev = cfgl[-1]
+            if finals is not None and not crash:
+                finals[sid] = prev
         return spec_bad, tie_bad
 
     def choose_variant(self, scripts):
@@ -609,13 +623,15 @@ def shrink(ops, still_fails):
 
 # ----------------------------------------------------------------------------- exhaustive exploration
 def explore(runner, variant, init, alphabet, depth, budget, t_end):
-    """Breadth-first over the configurations reachable from `init` (+ seed prefix) by ops of the
-    alphabet, merging equal Impl dumps; every (reachable configuration, op) pair up to `depth` is
-    run on Impl and Model and checked against the Spec.  Returns dict with counts and failures."""
-    seen = {}
+    """Breadth-first over the configurations reachable from `init` by ops of the alphabet, merging
+    equal Impl dumps; every (reachable configuration, op) pair up to `depth` is run on Impl and
+    Model (by replaying a shortest path, muted, then the op) and checked against the Spec."""
+    strip = lambda ops: [o for o in ops if o not in ("mute", "unmute", "dump")]
+    fin = {}
+    runner.evaluate([(0, "exhaustive", [init])], variant, finals=fin)
+    seen = {fin.get(0): []}
     frontier = [[]]
     total_pairs = 0
-    sequences = 0
     level_sizes = []
     spec_bad, tie_bad = [], []
     truncated = False
@@ -623,44 +639,35 @@ def explore(runner, variant, init, alphabet, depth, budget, t_end):
         scripts = []
         for path in frontier:
             for op in alphabet(path):
-                sid = len(scripts)
                 pre = [init] + (["mute"] + path + ["unmute"] if path else []) + ["dump", op]
-                scripts.append((sid, "exhaustive", pre))
+                scripts.append((len(scripts), "exhaustive", pre))
         if not scripts:
             break
         if total_pairs + len(scripts) > budget or time.time() > t_end:
             truncated = True
             break
         total_pairs += len(scripts)
+        level_sizes.append(len(frontier))
         nxt = []
-        CH = 40000
+        CH = 50000
         for c in range(0, len(scripts), CH):
             chunk = scripts[c:c + CH]
-            sb, tb = runner.evaluate(chunk, variant, last_only=True)
-            spec_bad += [(s, [o for o in ops if o not in ("mute", "unmute", "dump")], v) for s, ops, v in sb]
-            tie_bad += [(s, [o for o in ops if o not in ("mute", "unmute", "dump")], v) for s, ops, v in tb]
-            # read the resulting dumps back from a second, cheap pass: the model's (equal to Impl's when the tie holds)
-            mres = run_model(runner.model, [(sid, ops) for sid, fam, ops in chunk], variant)
+            fin = {}
+            sb, tb = runner.evaluate(chunk, variant, last_only=True, finals=fin)
+            spec_bad += [(s, strip(ops), v) for s, ops, v in sb]
+            tie_bad += [(s, strip(ops), v) for s, ops, v in tb]
             for sid, fam, ops in chunk:
-                bl = mres[sid]
-                if not bl:
-                    continue
-                cfgl = [l for l in bl[-1].lines if l.startswith("cfg ")]
-                if not cfgl:
-                    continue
-                key = cfgl[-1]
-                if key not in seen:
-                    path = [o for o in ops[1:] if o not in ("mute", "unmute", "dump")]
+                key = fin.get(sid)
+                if key is not None and key not in seen:
+                    path = strip(ops)[1:]
                     seen[key] = path
                     nxt.append(path)
             if spec_bad or tie_bad:
                 break
-        level_sizes.append(len(frontier))
-        sequences += len(scripts)
         if spec_bad or tie_bad:
             break
         frontier = nxt
-    return {"init": init, "depth_reached": len(level_sizes), "depth_asked": depth, "states": len(seen) + 1,
+    return {"init": init, "depth_reached": len(level_sizes), "depth_asked": depth, "states": len(seen),
             "pairs": total_pairs, "frontier_sizes": level_sizes, "truncated": truncated,
             "spec_bad": spec_bad, "tie_bad": tie_bad}
 
@@ -778,7 +785,7 @@ def run(chk):
             continue
         reported.add(key)
         small = shrink(ops, impl_fails_with(key))
-        blocks, crash = run_impl(impl, [(0, small)])[0]
+        blocks, crash = run_impl(impl, [(0, small)], symbolize=True)[0]
         v2 = [v for v in spec_check(small, blocks, crash) if v["key"] == key]
         m = run_model(model, [(0, small)], variant)[0]
         chk.violation(replay_obj("impl-vs-spec", small, {
@@ -854,7 +861,7 @@ def replay(path):
         return 1
     impl = build_impl()
     model = build_model()
-    blocks, crash = run_impl(impl, [(0, ops)])[0]
+    blocks, crash = run_impl(impl, [(0, ops)], symbolize=True)[0]
     m = run_model(model, [(0, ops)], o.get("model_variant") or "current")[0]
     print("script:")
     for l in ops:
